@@ -70,3 +70,39 @@ Example C17_hash_equality_refuted :
               <> map (pure nat nat nat (fun x => x) (fun x => x)) ops.
 Proof. exact unsound_key_gives_stale_matrix. Qed.
 Print Assumptions C17_hash_equality_refuted.
+
+(* ---- the SOURCE of the mutable part of StateSpace (update_epoch, drop_S, drop_cache, S, _get_rate_matrix, states; translated on
+   every run by translate/cache2coq.py into gen/CacheGen.v) is the cache machine the theorems above are about ---- *)
+From PG Require Import gen.NpCache gen.CacheGen proofs.GenCacheEquiv.
+Section C17source.
+  Variables Epoch Tr Mx : Type.
+  Variable eqk : Epoch -> Epoch -> bool.
+  Variable trans_of : Epoch -> Tr.
+  Variable mat_of : Tr -> Mx.
+  Hypothesis eqk_sound : forall e e', eqk e e' = true -> trans_of e = trans_of e'.
+
+  Theorem C17_state_space_py_update_epoch_is_the_model : forall s e,
+    StateSpace_update_epoch Epoch Tr Mx eqk s e = update_epoch Epoch Tr Mx eqk s e.
+  Proof. exact (gen_update_epoch_eq Epoch Tr Mx eqk). Qed.
+  Theorem C17_state_space_py_reading_S_is_the_model : forall s,
+    StateSpace_S Epoch Tr Mx eqk trans_of mat_of s = get_S Epoch Tr Mx eqk trans_of mat_of s.
+  Proof. exact (gen_S_eq Epoch Tr Mx eqk trans_of mat_of). Qed.
+  Theorem C17_state_space_py_drops_are_the_model : forall s,
+    StateSpace_drop_S Epoch Tr Mx s = drop_S Epoch Tr Mx s /\ StateSpace_drop_cache Epoch Tr Mx s = drop_cache Epoch Tr Mx s.
+  Proof. intros s. split; [apply gen_drop_S_eq | apply gen_drop_cache_eq]. Qed.
+  Theorem C17_state_space_py_S_after_any_history_is_pure : forall s,
+    Inv Epoch Tr Mx trans_of mat_of s ->
+    Inv Epoch Tr Mx trans_of mat_of (fst (StateSpace_S Epoch Tr Mx eqk trans_of mat_of s)) /\
+    snd (StateSpace_S Epoch Tr Mx eqk trans_of mat_of s) = mat_of (trans_of (ss_epoch Epoch Tr Mx s)).
+  Proof. exact (source_S_is_pure Epoch Tr Mx eqk trans_of mat_of eqk_sound). Qed.
+  Theorem C17_state_space_py_states_property_keeps_the_invariant : forall s,
+    Inv Epoch Tr Mx trans_of mat_of s ->
+    Inv Epoch Tr Mx trans_of mat_of (fst (StateSpace_states_body Epoch Tr Mx eqk trans_of s)) /\
+    snd (StateSpace_states_body Epoch Tr Mx eqk trans_of s) = trans_of (ss_epoch Epoch Tr Mx s).
+  Proof. exact (gen_states_inv Epoch Tr Mx eqk trans_of mat_of eqk_sound). Qed.
+End C17source.
+Print Assumptions C17_state_space_py_update_epoch_is_the_model.
+Print Assumptions C17_state_space_py_reading_S_is_the_model.
+Print Assumptions C17_state_space_py_drops_are_the_model.
+Print Assumptions C17_state_space_py_S_after_any_history_is_pure.
+Print Assumptions C17_state_space_py_states_property_keeps_the_invariant.
